@@ -77,7 +77,7 @@ func c05BodyAlphabet(p, q string) []string {
 		"g = func() { " + p + " }; for " + p + " = 2 { println(g()) }",
 		"aa = [1, 2, 3, 4, 5, 6, 7]; gw = aa[" + p + ":++" + p + "]", "gw = quote(" + p + " + 1)", "for i = 2 { println(quote(i), quote(" + p + ")) }",
 		// the value of a loop expression is the last value of its body
-		"gw = for i = 4 { if i == 2 { break }; i }", "gw = for " + p + " = 3 { " + p + " }", "gw = [for i = 0:3 { i }, for j = 2 { " + p + " }]", "gw = for i = 3 { " + p + " = " + p + " + 1; " + p + " - 1 }",
+		"gw = for i = 4 { if i == 2 { break }; i }", "gw = for j = 2 { if j == 1 { " + p + " = 50; continue }; " + p + " }", "gw = for j = 3 { if j == 2 { " + p + "++; break }; " + p + " }", "gw = for " + p + " = 3 { " + p + " }", "gw = [for i = 0:3 { i }, for j = 2 { " + p + " }]", "gw = for i = 3 { " + p + " = " + p + " + 1; " + p + " - 1 }",
 		// the parameter used as if it were a container
 		p + "[0] = 1", p + ".k = 1", p + "[0]", "del(" + p + "[0])", p + "[0:1]", p + "[0]++",
 	}
@@ -170,7 +170,7 @@ func c05FnPrograms(thorough bool, f func(fam, src string) bool) bool {
 	return true
 }
 
-var c05Exits = []string{"none", "break", "continue", "return", "error", "funclit", "assign", "incr", "condbreak", "condcontinue", "condreturn", "storemap", "storearr", "storelit"}
+var c05Exits = []string{"none", "break", "continue", "return", "error", "funclit", "assign", "incr", "condbreak", "condcontinue", "condreturn", "storemap", "storearr", "storelit", "evalerr"}
 
 // c05Loop renders nested counted loops. names[i]=="" means the count-only form `for n {}`.
 func c05Loop(names []string, forms []int, exitLevel int, exit string, exitFirst bool) string {
@@ -216,6 +216,8 @@ func c05Loop(names []string, forms []int, exitLevel int, exit string, exitFirst 
 				return "c++"
 			}
 			return v + "++"
+		case "evalerr": // a failing eval() caught inside the loop (it must not disturb the registers of the running loops)
+			return "catch(eval(\"no_such_name_\" + str(" + cv + ")))"
 		case "storemap": // the loop variable stored as key and value of a container that outlives the iteration
 			return "stm[" + cv + "] = " + cv
 		case "storearr":
